@@ -5,7 +5,8 @@ c(J,i) recursion, embedding rule < 32, root always hashed) of the updated conten
 state of every contents set of the family, value pool targeted at RLP lengths 31/32/33.  Order /
 overwrite / delete / batching / pruning independence follow because the reference is a function of the
 contents only and every step is checked from every canonical state.
-Thorough adds steps whose value *content* is a symbolic byte string (model hash on both sides).
+Both tiers add steps whose value *content* is a symbolic byte string of length 1, 29 or 33 flowing through the real
+insertion code and pyrlp (keccak replaced by an injective interning function on both sides): 6 jobs in quick, 84 in thorough.
 """
 import sys
 
@@ -21,8 +22,8 @@ ASSUMPTIONS = [
     "real keccak / pyrlp on concrete bytes; thorough symbolic-content steps use an injective interning stub for keccak on both sides (root equality <=> structural equality)",
 ]
 BOUNDS = {
-    "quick": "contents sets: all <=2-subsets of the 7-key pool x {1-byte, 33-byte} + 9 special 3/4-key sets (135 sets); ops {set,[]=,delete,del} x 7 keys x 7 values (b'', 0x01, 0x80, 33B 'A', 33B 'B', 29B, 4B); configs alternate over (prune F/T) x (direct / one-op batch)",
-    "thorough": "all <=3-subsets of the 10-key pool x 3 value classes; 12-value pool incl. 27/28/29/30/60-byte values; all 4 configs; + symbolic value content of length 1, 29 and 33 on 3/4-key sets",
+    "quick": "contents sets: all <=2-subsets of the 7-key pool x {1-byte, 33-byte} + 9 special 3/4-key sets (135 sets); ops {set,[]=,delete,del} x 7 keys x 7 values (b'', 0x01, 0x80, 33B 'A', 33B 'B', 29B, 4B); configs alternate over (prune F/T) x (direct / one-op batch); + 6 symbolic-value-content steps",
+    "thorough": "all <=3-subsets of the 10-key pool x 3 value classes; 12-value pool incl. 27/28/29/30/60-byte values; all 4 configs; + symbolic value content of length 1, 29 and 33 from 14 contents sets x prune {F,T}",
 }
 OUTSIDE = "values longer than 60 bytes, keys outside the pools, more than 4 live keys"
 NONTRIVIAL_RULE = "the operation changed the contents"
@@ -36,9 +37,10 @@ assert __import__("vf.oracle.mpt", fromlist=["x"]).root_of({b"foo": b"bar", b"fo
 def jobs(tier):
     seed = common.seed()
     configs = [(False, "direct"), (True, "direct"), (False, "batch"), (True, "batch")]
+    sym = hexstep.symval_jobs(tier, ["root"], seed, [False, True])
     if tier == "quick":
-        return hexstep.step_jobs(tier, ["root"], "K7", "V7", seed, configs, lambda mi, ci: mi % 4 == ci or (mi + 2) % 4 == ci)
-    return hexstep.step_jobs(tier, ["root"], "K10", "V12", seed, configs)
+        return hexstep.step_jobs(tier, ["root"], "K7", "V7", seed, configs, lambda mi, ci: mi % 4 == ci or (mi + 2) % 4 == ci) + sym[3::14]
+    return hexstep.step_jobs(tier, ["root"], "K10", "V12", seed, configs) + sym
 
 
 def run(tier):
